@@ -136,6 +136,9 @@ def build_jobs(ctx, rng, two_block_sample=2600):
         for f in MULTI[d["kind"]]:
             if f == "odg":      # a drawing has no speaker notes: same pages without the notes
                 jobs.append({"doc": dict(d, slides=[dict(s, notes=[]) for s in d["slides"]]), "fmt": f})
+            elif d["kind"] == "pages" and "gap" in d["pages"]:
+                if f == "epub":     # only an EPUB spine can hold a position that is no chapter
+                    jobs.append({"doc": d, "fmt": f})
             else:
                 jobs.append({"doc": d, "fmt": f})
     return jobs, len(docs) + len(mdocs)
